@@ -18,6 +18,9 @@ def run(repo, report, tier):
     report.rule("C10.R5", "the renaming placeholders that record what earlier modifiers did ({cut_prefix}, {cut_suffix}, {adapter_name}, {match_sequence}) are filled by the same function of the modification info in the single-end and in the paired-end renamer",
                 "a paired-end header shows another (or no) removed piece than the single-end header for the same read")
     report.guard("C10.R5", "renamers", r4_placeholders, repo, report)
+    report.rule("C10.R6", "a step 'sees exactly the output of the preceding steps': the modifiers that act on the read alone (-u/-U, -q, --nextseq-trim, --poly-a, --trim-n, --length, --length-tag, --strip-suffix, --zero-cap) do not consult the per-read bookkeeping (info) to decide whether or how to act",
+                "a modifier skips reads depending on what an earlier step recorded (e.g. --length-tag keeps a stale length when no adapter matched)")
+    report.guard("C10.R6", "read-only modifiers", r6_info_independent, repo, report)
 
 
 def r3_sequential(repo, report):
@@ -109,3 +112,27 @@ def r4_placeholders(repo, report):
     report.ob("C10.R5", "PairedEndRenamer fills the info placeholders like Renamer", not bad and n >= 8, facts={"compared": n, "problems": [str(b)[:260] for b in bad[:3]]},
               expected="cut_prefix / cut_suffix: the recorded piece or ''; adapter_name: name of the last match or 'no_adapter'; match_sequence: of the last match or ''", loc=repo.loc(lp), cases=n,
               why=str(bad[0])[:220] if bad else "")
+
+
+# modifiers whose documented effect is a function of the read they are handed (and their own options)
+_READ_ONLY_MODIFIERS = ("UnconditionalCutter", "QualityTrimmer", "NextseqQualityTrimmer", "PolyATrimmer", "NEndTrimmer", "Shortener", "LengthTagModifier", "SuffixRemover", "ZeroCapper")
+
+
+def r6_info_independent(repo, report):
+    n = 0
+    for cname in _READ_ONLY_MODIFIERS:
+        cls = repo.classes.get(cname) if hasattr(repo, "classes") else None
+        if cls is None or "__call__" not in cls.methods:
+            continue
+        fn = cls.methods["__call__"]
+        ps = params(fn)
+        infos = [p_ for p_ in ps[2:]]
+        reads = sorted({f"{x.value.id}.{x.attr}" for x in ast.walk(fn) if isinstance(x, ast.Attribute) and isinstance(x.value, ast.Name) and x.value.id in infos and isinstance(x.ctx, ast.Load)})
+        passed = sorted({src(c_) for c_ in ast.walk(fn) if isinstance(c_, ast.Call) and any(isinstance(a, ast.Name) and a.id in infos for a in list(c_.args) + [k.value for k in c_.keywords])})
+        tested = sorted({src(t) for t in ast.walk(fn) if isinstance(t, (ast.If, ast.IfExp, ast.While)) for x in ast.walk(t.test) if isinstance(x, ast.Name) and x.id in infos})
+        n += 1
+        ok = not reads and not passed and not tested
+        report.ob("C10.R6", f"{cname}.__call__ acts on the read alone", ok, facts={"info_attributes_read": reads, "info_passed_to": passed}, loc=repo.loc(fn),
+                  expected="no attribute of the ModificationInfo is read (recording what was cut, e.g. info.cut_prefix = ..., is fine)",
+                  why="" if ok else f"{cname} consults {(reads + passed + tested)[0]}: whether or how it acts depends on an earlier step's bookkeeping, not on the read it receives")
+    report.floor("C10.R6", "read-only modifiers", n, 9)
